@@ -125,3 +125,33 @@ theorem firstOk_next (p : List α → Except FErr Bool) :
         · exact h1 c hc
 
 end Heph.Mut
+
+namespace Heph.Mut
+
+/-- every combination enumerated is a sub-list (order kept) of the given list, of the asked size -/
+theorem combos_sublist {α : Type} : ∀ (r : Nat) (xs c : List α), c ∈ combos r xs → c.Sublist xs ∧ c.length = r
+  | 0, xs, c, h => by
+    simp only [combos, List.mem_singleton] at h
+    subst h
+    exact ⟨List.nil_sublist _, rfl⟩
+  | r + 1, [], c, h => by simp [combos] at h
+  | r + 1, x :: xs, c, h => by
+    simp only [combos, List.mem_append, List.mem_map] at h
+    rcases h with ⟨c', hc', rfl⟩ | h
+    · obtain ⟨h1, h2⟩ := combos_sublist r xs c' hc'
+      exact ⟨h1.cons_cons x, by simp [h2]⟩
+    · obtain ⟨h1, h2⟩ := combos_sublist (r + 1) xs c h
+      exact ⟨h1.cons x, h2⟩
+
+theorem combosFrom_sublist {α : Type} : ∀ (r : Nat) (xs c : List α), c ∈ combosFrom r xs →
+    c.Sublist xs ∧ 0 < c.length ∧ c.length ≤ r
+  | 0, xs, c, h => by simp [combosFrom] at h
+  | r + 1, xs, c, h => by
+    simp only [combosFrom, List.mem_append] at h
+    rcases h with h | h
+    · obtain ⟨h1, h2⟩ := combos_sublist (r + 1) xs c h
+      exact ⟨h1, by omega, by omega⟩
+    · obtain ⟨h1, h2, h3⟩ := combosFrom_sublist r xs c h
+      exact ⟨h1, h2, by omega⟩
+
+end Heph.Mut
